@@ -526,6 +526,72 @@ def quic_flight_sequences(ctx, maxlen, part, nparts, adversary, only=None):
     ctx.extra["exhaustive"] = True
 
 
+
+def quic_client_flight_sequences(ctx, maxlen, part, nparts, request, adversary):
+    """The client-flight sequences at the QUIC level against an aioquic server connection: one message per datagram, all received before the next
+    datagrams_to_send."""
+    from vlib import endpoints as E, tlspeer as TP
+
+    other_key = E.load_key("leaf_ed25519.key")
+    alphabet = ["Cert", "CertEmpty", "CV", "CVbad", "Fin"]
+    legal_list = [("Cert", "CV", "Fin"), ("CertEmpty", "Fin")] if request else [("Fin",)]
+    nxt = {("start", "Cert"): "CV", ("start", "CertEmpty"): "Fin", ("CV", "CV"): "Fin", ("Fin", "Fin"): "done"} if request else {("start", "Fin"): "done"}
+    i = 0
+    for seq in multiset_sequences(alphabet, maxlen):
+        if "CV" in seq and "CVbad" in seq:
+            continue
+        i += 1
+        if i % nparts != part:
+            continue
+        with E.pinned(("c11-quic-cseq", request, adversary)):
+            cp = TP.ClientPeer(request_client_cert=request, client_cert=True)
+            cp.install_server_cert_request()
+            ref = cp.ref
+            cp.send_crypto("initial", ref.client_hello(), pad_to=1200)
+            cp.pump_sut()
+            sh, hs = cp.server_flight()
+            ref.receive_server_flight(sh)
+            cp.after_server_hello()
+            cp.reopen()
+            sh, hs = cp.server_flight()
+            ref.receive_server_flight(hs)
+            cp.after_server_finished()
+            st = "start"
+            for sym in seq:
+                saved = ref.ks.copy()
+                if sym == "Cert":
+                    m = ref.certificate()
+                elif sym == "CertEmpty":
+                    m = ref.certificate(chain=[])
+                elif sym == "CV":
+                    m = ref.certificate_verify()
+                elif sym == "CVbad":
+                    m = ref.certificate_verify(private_key=other_key, algorithm=0x0807)
+                else:
+                    m = ref.finished()
+                to = nxt.get((st, sym))
+                if to is None:
+                    if adversary == "accepted":
+                        ref.ks = saved
+                else:
+                    st = to
+                cp.send_crypto("handshake", m)
+            cp.pump_sut()
+            names = [type(e).__name__ for e in cp.events]
+            completed = "HandshakeCompleted" in names
+            legal = tuple(seq) in legal_list
+            prefix_legal = any(tuple(seq[:n]) in legal_list for n in range(len(seq) + 1))
+            case = {"kind": "qcseq", "request": request, "adversary": adversary, "seq": list(seq)}
+            ctx.case(("qcf", request, adversary, seq), nontrivial=edit_distance_one(tuple(seq), legal_list) and not legal, classes=["quic-client-flight:" + adversary + ("-requested" if request else ""), "quic-client-flight:" + ("legal" if legal else "illegal")])
+            if completed and not prefix_legal:
+                ctx.violation("server-finished-after-illegal-client-flight", "QUIC level: the aioquic server (client certificate requested: %s) emitted HandshakeCompleted after the client flight %s (one message per datagram, all received before the next datagrams_to_send; MACs over the %s transcript); close state %r" % (request, list(seq), adversary, cp.sut._close_event), case)
+            if legal and not completed:
+                ctx.violation("server-refused-legal-client-flight", "QUIC level: the legal client flight %s did not complete the handshake (events %s, close %r)" % (list(seq), names, cp.sut._close_event), case)
+            if ctx.want_sample():
+                ctx.sample(case)
+    ctx.extra["exhaustive"] = True
+
+
 def replay(ctx, case):
     k = case.get("kind")
     if k == "table":
@@ -536,6 +602,8 @@ def replay(ctx, case):
         client_flight_sequences(ctx, max(len(case["seq"]), 1), 0, 1, case["request"])
     elif k == "pskch":
         psk_client_hellos(ctx)
+    elif k == "qcseq":
+        quic_client_flight_sequences(ctx, max(len(case["seq"]), 1), 0, 1, case["request"], case["adversary"])
     elif k == "qseq":
         quic_flight_sequences(ctx, max(len(case["seq"]), 1), 0, 1, case["adversary"], only=case["seq"])
 
@@ -557,6 +625,9 @@ def plan(tier, seed):
         for p in range(2):
             t.append(("quic-server-flight-%s-part%d" % (adv, p), {"fn": "qsf", "maxlen": 5 if q else 6, "part": p, "nparts": 2, "adversary": adv}))
     for req in (False, True):
+        for adv in ("sent", "accepted"):
+            t.append(("quic-client-flight-%s-%s" % ("requested" if req else "plain", adv), {"fn": "qcf", "maxlen": 4 if q else 6, "part": 0, "nparts": 1, "request": req, "adversary": adv}))
+    for req in (False, True):
         for p in range(2):
             t.append(("client-flight-%s-part%d" % ("requested" if req else "plain", p), {"fn": "cf", "maxlen": 5 if q else 6, "part": p, "nparts": 2, "request": req}))
     return t
@@ -567,6 +638,8 @@ def run_task(ctx, name, fn, **kw):
         table(ctx, kw["state"])
     elif fn == "pskch":
         psk_client_hellos(ctx)
+    elif fn == "qcf":
+        quic_client_flight_sequences(ctx, kw["maxlen"], kw["part"], kw["nparts"], kw["request"], kw["adversary"])
     elif fn == "qsf":
         quic_flight_sequences(ctx, kw["maxlen"], kw["part"], kw["nparts"], kw["adversary"])
     elif fn == "sf":
